@@ -51,6 +51,7 @@ func (P *Program) verifyFunction(con *Contract) (res *FuncResult) {
 	fr := g.newFrame(fn, 0)
 	fr.top = true
 	fr.con = con
+	g.topFrame = fr
 	fr.nopanic = !con.MayPanic
 	g.stack = []*ssa.Function{fn}
 	st := &State{cells: map[*Cell]string{}, heap: g.newRootHeap(), path: "true"}
